@@ -124,10 +124,11 @@ pub fn expand(text: &str, ci: usize) -> (Outcome, bool) {
 
 // ------------------------------------------------------------------ (a) token soups
 
-pub const VOCAB: [&str; 64] = [
+pub const VOCAB: [&str; 80] = [
     "|>", "=>", "?>", "..", ">.", "->", "<|", "<=", "!>", "=>[]", ">@>", "?|>@", "?|>", "|n>", "?&!>", "^^>", "^@", "?^@", "?@", ">^>", "<->", "??", "<<<", ">>>", "~", ",", ",", ",", "let", "mut", "=", "x", "f", "g",
     "map", "then", "and_then", "n", "map =>", "then =>", "and_then =>", "1", "\"s\"", "'c'", "|v| v", "|a, b| a", "Some(1)", "Vec<_>", "len()", "_", "&x", "futures_crate_path(::futures)", "custom_joiner(j)",
     "custom_joiner(m!)", "transpose_results(false)", "transpose_results(true)", "lazy_branches(true)", "lazy_branches(false)", "::", ";", "?", "!", "|", ">",
+    "'a", "#", "@", "$", "<", "-", "^", "&", ".", "r#x", "0", "1.5", "x.await", "|| x", "move", "as u8",
 ];
 
 fn soup() -> impl Strategy<Value = Vec<String>> {
